@@ -220,7 +220,7 @@ def run(ctx):
                 "ends; save+load every 4 steps; non-trivial = distinct "
                 "(operation, shrinks?, equal-to-stored?)")
     ctx.tie = core.BatchTie(ctx, "interval", "interval")
-    n = ctx.scale(400, 15000)
+    n = ctx.scale(3000, 15000)
     for h in range(n):
         if not one_history(ctx, h, ctx.scale(12, 24)):
             if len(ctx.violations) >= 3:
